@@ -86,7 +86,7 @@ func run(c Case) (v *vcore.Violation, stt stats) {
 	window := map[key]*entry{}
 	expired := map[key]bool{}
 	seqSeenBy := map[uint32]map[int]bool{}
-	lastSess := map[int]uint64{} // per node: UP SEID of the latest live session
+	lastSess := map[int]uint64{}   // per node: UP SEID of the latest live session
 	ownOut := map[key]*stack.SRR{} // the UPF's own outstanding requests, by (node, sequence number)
 	farID := uint32(0)
 	cp := uint64(0x100)
@@ -451,10 +451,13 @@ func runWindow(t vcore.Failer, c rxwindow.Case, minimise bool) {
 		vcore.E.NonTrivial(vcore.JSON(c))
 		vcore.E.Sample("real-window", c)
 	}
+	if st.Busy && st.Keys > 64 {
+		vcore.E.Class("real_window:more_than_64_windows_ended_while_the_loop_was_busy")
+	}
 	if minimise && v != nil && !vcore.IsKnown(v.Key) {
 		key := v.Key
 		c.Evs = vcore.MinimizeSlice(c.Evs, func(evs []rxwindow.Ev) bool {
-			x, _ := rxwindow.Run(rxwindow.Case{RetransMs: c.RetransMs, MaxRetrans: c.MaxRetrans, Evs: evs})
+			x, _ := rxwindow.Run(rxwindow.Case{RetransMs: c.RetransMs, MaxRetrans: c.MaxRetrans, Evs: evs, Many: c.Many, BusyMs: c.BusyMs})
 			return x != nil && x.Key == key
 		}, 12)
 	}
@@ -568,6 +571,7 @@ func TestC06(t *testing.T) {
 	}
 
 	// (b) real retention window (package rxwindow)
+	runWindow(t, rxwindow.Case{RetransMs: 20, MaxRetrans: 1, Evs: []rxwindow.Ev{{Kind: "assoc", Peer: 0, Seq: 77}}, Many: 150, BusyMs: 300}, false)
 	vcore.Check(t, vcore.N(30, 300), func(rt *rapid.T) {
 		runWindow(rt, rxwindow.Gen(rt), true)
 	})
